@@ -33,6 +33,9 @@ ASSUMPTIONS = [
 BOUNDS = {"quick": {"max_atoms": 8}, "thorough": {"max_atoms": 14}}
 
 
+_CER_HOLDER = []
+
+
 def _providers(table):
     from ahbicht.content_evaluation.fc_evaluators import DictBasedFcEvaluator
     from ahbicht.content_evaluation.rc_evaluators import DictBasedRcEvaluator
@@ -94,7 +97,19 @@ def check(case):
     text, table = case["s"], case["table"]
     used = case["used"]
     missing = [k for k in used if table.get(k) is None]
-    sut.configure(_providers(table))
+    if case.get("resolver") == "cer":
+        # the shipped ContentEvaluationResult based resolver (packages are taken from the evaluatable data);
+        # it can only express "absent", so None entries are dropped
+        from contextvars import ContextVar
+
+        holder = _CER_HOLDER or ContextVar("c10_cer", default=None)
+        if not _CER_HOLDER:
+            _CER_HOLDER.append(holder)
+        holder = _CER_HOLDER[0]
+        holder.set(sut.make_cer(packages={k: v for k, v in table.items() if v is not None}))
+        sut.setup_cer_based(holder)
+    else:
+        sut.configure(_providers(table))
     actual = sut.call(api.resolve, text, True, True)
     info = {"regrouped": False, "missing": bool(missing)}
     if missing:
@@ -162,7 +177,8 @@ def classify(case, info):
     asts = [p[1] for p in case["parts"] if p[1] is not None]
     abbreviations = [a for ast in asts for a in _abbreviations(ast)]
     packages = [a[1] for a in abbreviations if a[0] == "pkg"]
-    labels = [f"abbreviations={min(len(abbreviations), 5)}", "ahb" if case["is_ahb"] else "condition"]
+    labels = [f"abbreviations={min(len(abbreviations), 5)}", "ahb" if case["is_ahb"] else "condition",
+              "resolver=" + case.get("resolver", "dict")]
     if info["missing"]:
         labels.append("unknown-package")
     if info["regrouped"]:
@@ -214,7 +230,8 @@ def strategy(tier):
             parts.append([None, ast])
             text = gen.render(draw, ast)
         used = sorted({a[1] for p in parts if p[1] is not None for a in ref.atoms_of(p[1]) if a[0] == "pkg"})
-        return {"table": table, "parts": parts, "s": text, "is_ahb": is_ahb, "used": used}
+        return {"table": table, "parts": parts, "s": text, "is_ahb": is_ahb, "used": used,
+                "resolver": draw(st.sampled_from(["dict", "dict", "cer"]))}
 
     return build()
 
